@@ -1202,7 +1202,7 @@ impl Property for P13 {
     fn random_runs(tier: Tier) -> u64 {
         match tier {
             Tier::Quick => 60_000,
-            Tier::Thorough => 6_000_000,
+            Tier::Thorough => 3_000_000,
         }
     }
 
